@@ -212,13 +212,16 @@ def gen(rng, tier):
                 L.append("m.step"); L.append("m.cv q"); lines[label] = (cl, len(L))
             cases.append({"lines": L, "meta": {"kind": kind, "cell": cell, "lines": lines, "text": text, "P": P, "M": M, "Q": Q, "R": R, "v": v},
                           "nontrivial": True})
-    return cases
+    return cases + gen_origin_fit(rng, tier)
 
 
 def distribution(cases):
     d = {"kinds": {}, "cell": 0}
     for c in cases:
         m = c["meta"]
+        if m.get("family") == "origin_fit":
+            d["origin_fit"] = d.get("origin_fit", 0) + 1
+            continue
         if "kind" not in m:
             d["modelled"] = d.get("modelled", 0) + 1
             continue
@@ -242,8 +245,58 @@ def ang_close(a, b, period):
 REF_STATS = {"compared": 0, "no_reference": 0}
 
 
+def vals(out, ln, tag):
+    v = out.get((ln, tag, 1))
+    return None if v is None else [tok_val(t)[1] for t in v]
+
+
+def gen_origin_fit(rng, tier):
+    """a group seen in the frame of a separate fitting group, centred on the origin (centerToOrigin): the documented frame is
+    x' = R (x - centre of the fitting group), R the optimal rotation of the fitting group onto its reference"""
+    cases = []
+    for k in range(4 if tier == "quick" else 40):
+        P = [[rng.uniform(-3.0, 3.0) for _ in range(3)] for _ in range(NAT)]
+        pool = list(range(NAT)); rng.shuffle(pool)
+        atoms = sorted(pool[:rng.randint(1, 3)]); fit = sorted(pool[3:3 + rng.randint(3, 5)])
+        # reference of the fitting group: the current geometry, rotated, shifted well away from the origin, with noise
+        import cvref
+        th = rng.uniform(0.4, 2.6); ax = [rng.uniform(-1, 1) for _ in range(3)]; nrm = math.sqrt(sum(x * x for x in ax)); ax = [x / nrm for x in ax]
+        def rotv(v):
+            c, s_ = math.cos(th), math.sin(th)
+            d = sum(a * b for a, b in zip(ax, v))
+            cr = [ax[1] * v[2] - ax[2] * v[1], ax[2] * v[0] - ax[0] * v[2], ax[0] * v[1] - ax[1] * v[0]]
+            return [v[i] * c + cr[i] * s_ + ax[i] * d * (1 - c) for i in range(3)]
+        shift = [rng.uniform(2.0, 5.0) * rng.choice([-1, 1]) for _ in range(3)]
+        ref = [[a + b + rng.uniform(-0.2, 0.2) for a, b in zip(rotv(P[i]), shift)] for i in fit]
+        corig = k % 4 != 3          # (one in four keeps centerToReference instead: the frame is then shifted to the reference's centre)
+        conf = ("colvar {\n name q\n cartesian {\n  atoms {\n   atomNumbers %s\n   %s on\n   rotateToReference on\n   fittingGroup {\n    atomNumbers %s\n   }\n"
+                "   refPositions %s\n  }\n }\n}\n") % (" ".join(str(a + 1) for a in atoms), "centerToOrigin" if corig else "centerToReference",
+                                                     " ".join(str(a + 1) for a in fit), " ".join("(%s, %s, %s)" % tuple(num(x) for x in r) for r in ref))
+        lines = ["m.new %d" % NAT, "M.noclock", cfg(conf)]; cl = len(lines)
+        lines += [pos(a, *P[a]) for a in range(NAT)] + ["m.step", "m.cv q"]
+        cg = [sum(P[i][c] for i in fit) / len(fit) for c in range(3)]; cr_ = [sum(r[c] for r in ref) / len(ref) for c in range(3)]
+        _, R = cvref.optimal_rotation([[P[i][c] - cg[c] for c in range(3)] for i in fit], [[r[c] - cr_[c] for c in range(3)] for r in ref])
+        want = []
+        for i in atoms:
+            d = [P[i][c] - cg[c] for c in range(3)]
+            v = [sum(R[r_][c] * d[c] for c in range(3)) for r_ in range(3)]
+            want += v if corig else [v[c] + cr_[c] for c in range(3)]
+        cases.append({"lines": lines, "meta": {"family": "origin_fit", "cfg": cl, "value": len(lines), "want": want, "corig": corig, "atoms": atoms, "fit": fit},
+                      "nontrivial": True})
+    return cases
+
+
 def oracle(case, out):
     m = case["meta"]
+    if m.get("family") == "origin_fit":
+        if vals(out, m["cfg"], "rc") != [0]:
+            return [(None, "generator error: the configuration of the origin_fit family was rejected")]
+        x = vals(out, m["value"], "x")
+        if x is None or len(x) != len(m["want"]) or any(abs(a - b) > 1e-8 * max(1.0, abs(b)) for a, b in zip(x, m["want"])):
+            return [(None, "cartesian coordinates of atoms %s in the frame of the fitting group %s (%s, rotateToReference): the library reports %r; "
+                     "R (x - centre of the fitting group)%s with the least-squares rotation gives %r" % (
+                         m["atoms"], m["fit"], "centerToOrigin" if m["corig"] else "centerToReference", x, "" if m["corig"] else " + centre of the reference", m["want"]))]
+        return []
     if "kind" not in m or "lines" not in m:
         return []
     kind = m["kind"]
